@@ -48,7 +48,7 @@ CLAIMED = {
             "DESIGN.md §4 C08"),
     "C09": ("exploration",
             "property-based testing (rapid): generated unions of analytic shapes at block-boundary positions; closed-oriented-surface validity predicate + exact-SDF distance and reference-volume oracles",
-            "Generated unions of spheres/boxes/capsules placed at and around the canvas' 100^3 storage-block boundaries (0..3 axes straddled, negative coordinates), resolutions 0.4..100 (thorough 1000) cubes per unit, cutoffs in [-1 cell, 0]: every directed edge balanced, multiplicity one except within tau of a lattice corner (known finding: merge by rounding), no repeated vertex in a triangle, positive volume within area x cell of a voxel-counted reference, every vertex within one cell of the exact isosurface. Cases cost 0.3-2.5 s, so ~100 (quick) / ~2400 (thorough) cases. Sampling level.",
+            "Generated unions of spheres/boxes/capsules placed at and around the canvas' 100^3 storage-block boundaries (0..3 axes straddled, negative coordinates), resolutions 0.4..100 (thorough 1000) cubes per unit, cutoffs in [-1 cell, 0]: every directed edge balanced and of multiplicity one, except for the two faces of one known finding (merge by rounding: pinches, and cracks at block seams, both only within tau of a lattice corner and each matched by its own predicate), no repeated vertex in a triangle, positive volume within area x cell of a voxel-counted reference, every vertex within one cell of the exact isosurface. Cases cost 0.3-2.5 s, so ~100 (quick) / ~2400 (thorough) cases. Sampling level.",
             "Trusted: the exact SDFs and the voxel reference in harness/c09. Strength 1, cutoff <= 0.",
             "DESIGN.md §4 C09"),
     "C10": ("exploration",
@@ -68,7 +68,7 @@ CLAIMED = {
             "DESIGN.md §4 C12"),
     "C13": ("exploration",
             "concurrent history recording with real goroutines + porcupine linearizability checking against a sequential model, under the Go race detector",
-            "Generated client scripts (2..6 goroutines x 3..10 operations, drawn yields, GOMAXPROCS 2..16) of UpdateParameter / ParameterData / Artifact on a graph with two producers over four parameters through shared and two-level nodes; invocation/response stamped by an atomic logical clock; porcupine must find a sequential order consistent with real time in which every artifact renders one whole parameter vector; race-instrumented binary, any race report or crash is a violation. Schedules are sampled (24 000 histories quick), not owned.",
+            "Generated client scripts (2..6 goroutines x 3..10 operations, drawn yields, GOMAXPROCS 2..16) of UpdateParameter / ParameterData / Artifact on a graph with two producers over four parameters through shared and two-level nodes; invocation/response stamped by an atomic logical clock; porcupine must find a sequential order consistent with real time in which every artifact renders one whole parameter vector; race-instrumented binary, any race report or crash is a violation. The same histories are also issued as HTTP requests through the edit server's own handlers with autosave on (second verif hook, httptest). Schedules are sampled (24 000 + 6 000 histories quick), not owned.",
             "Trusted: porcupine v1.3.0, the Go race detector. Rare interleavings are only sampled.",
             "DESIGN.md §4 C13"),
     "C14": ("fault_enumeration",
